@@ -37,6 +37,9 @@ const (
 	MaxSourceURLLength = 256
 	// compilerFieldSize is the length of `Compiler` File header field in bytes.
 	compilerFieldSize = 64
+	// MaxMethodTokens is the maximum number of method tokens in a File (the
+	// reference implementation reads at most 128 of them).
+	MaxMethodTokens = 128
 )
 
 // File represents a compiled contract file structure according to the NEF3 standard.
@@ -136,7 +139,7 @@ func (n *File) DecodeBinary(r *io.BinReader) {
 		r.Err = errInvalidReserved
 		return
 	}
-	r.ReadArray(&n.Tokens)
+	r.ReadArray(&n.Tokens, MaxMethodTokens)
 	reserved := r.ReadU16LE()
 	if r.Err == nil && reserved != 0 {
 		r.Err = errInvalidReserved
